@@ -208,6 +208,13 @@ pub fn run(args: &Args) -> i32 {
         let ds = *r.pick(&[0usize, 15, 100, 2047, 2048, 4096, 10_000, 112_640]);
         cases.push(Case { shape: r.below(5), case_seed: r.next(), source_len: len, estimate, dict_size: ds, chunk: *r.pick(&[0usize, 0, 1, 100, 4096]) });
     }
+    // estimates around 2^32 (a collection of 4 GiB is not unusual; the estimate is a usize): the source itself stays small
+    #[cfg(target_pointer_width = "64")]
+    for est in [(1usize << 32) - 1, 1 << 32, (1 << 32) + 1, (1 << 32) + 4096, 2 << 32] {
+        for (len, ds) in [(5000usize, 4096usize), (100, 64), (70_000, 2048)] {
+            cases.push(Case { shape: r.below(5), case_seed: r.next(), source_len: len, estimate: est, dict_size: ds, chunk: 0 });
+        }
+    }
     if args.thorough() {
         // true length and estimate both above 512 KiB (thousands of epochs each: few cases)
         for j in 0..6usize {
@@ -219,7 +226,13 @@ pub fn run(args: &Args) -> i32 {
 
     use rayon::prelude::*;
     let max_cpu = std::sync::Mutex::new(0.0f64);
+    let confirmed_hangs = std::sync::atomic::AtomicUsize::new(0);
     cases.par_iter().enumerate().for_each(|(i, c)| {
+        if confirmed_hangs.load(std::sync::atomic::Ordering::SeqCst) >= 3 {
+            // the verdict is decided; every further hanging case would cost minutes
+            rec.count("cases_not_run_after_three_non_terminations", 1);
+            return;
+        }
         rec.eval();
         let replay = json!({"shape": c.shape, "case_seed": c.case_seed, "source_len": c.source_len, "estimate": c.estimate, "dict_size": c.dict_size, "chunk": c.chunk});
         let site_class = if c.estimate < 16 { "small_source_shortcut" } else { "epoch_loop" };
@@ -229,7 +242,8 @@ pub fn run(args: &Args) -> i32 {
             16..=2047 => "<2048",
             _ => ">=2048",
         };
-        let res = spawn_case(c, Duration::from_secs(600));
+        // wall limit per child: five times the CPU budget a case may use (quick cases need well under a second)
+        let res = spawn_case(c, Duration::from_secs(if args.thorough() { 600 } else { 120 }));
         let v = match res {
             ChildResult::Done(v) => v,
             ChildResult::Died(why) => {
@@ -238,10 +252,20 @@ pub fn run(args: &Args) -> i32 {
                 return;
             }
             ChildResult::Timeout => {
-                // reproduce alone with four times the time before calling it non-termination
-                match spawn_case(c, Duration::from_secs(2400)) {
-                    ChildResult::Timeout => rec.violation(Sig::new("non_termination", site_class, &format!("source={len_class}")), json!({"wall_limit_s": 2400}), replay),
-                    _ => rec.inconclusive(&format!("case {i} timed out once but finished when re-run alone")),
+                // reproduce with four times the time before calling it non-termination; at most three cases are
+                // confirmed that way (a builder that hangs on many inputs must not cost hours), the rest is counted
+                let already = confirmed_hangs.fetch_add(1, std::sync::atomic::Ordering::SeqCst);
+                if already >= 3 {
+                    rec.count("further_cases_that_timed_out_after_three_confirmed_non_terminations", 1);
+                    return;
+                }
+                let limit = if args.thorough() { 2400 } else { 400 };
+                match spawn_case(c, Duration::from_secs(limit)) {
+                    ChildResult::Timeout => rec.violation(Sig::new("non_termination", site_class, &format!("source={len_class}")), json!({"wall_limit_s": limit, "source_len": c.source_len, "estimate": c.estimate, "dict_size": c.dict_size, "chunk": c.chunk}), replay),
+                    _ => {
+                        confirmed_hangs.fetch_sub(1, std::sync::atomic::Ordering::SeqCst);
+                        rec.inconclusive(&format!("case {i} timed out once but finished when re-run alone"))
+                    }
                 }
                 return;
             }
